@@ -335,8 +335,9 @@ namespace nmtools::meta
 
 namespace nmtools::view
 {
-    template <typename lhs_t, typename rhs_t, typename axes_t=meta::ct<2>>
-    constexpr auto tensordot(const lhs_t& lhs, const rhs_t& rhs, const axes_t& axes=axes_t{})
+    // the tensordot pipeline; an integer axes must not exceed the number of dimensions of an operand (checked by view::tensordot)
+    template <typename lhs_t, typename rhs_t, typename axes_t>
+    constexpr auto tensordot_unchecked(const lhs_t& lhs, const rhs_t& rhs, const axes_t& axes)
     {
         auto lhs_axes = [&](){
             if constexpr (meta::is_tuple_v<axes_t>) {
@@ -405,7 +406,44 @@ namespace nmtools::view
         auto keepdims = False;
         auto e = view::sum(d,sum_axis,dtype,initial,keepdims);
 
-        return e;
+        using result_t = decltype(e);
+        // the paired (contracted) axes - the last sum_dim axes of both re-arranged operands -
+        // must have the same extent, they are not broadcast against each other;
+        // for shapes that are only known at run time so is their compatibility: Nothing
+        const auto a_shape = shape<true>(a);
+        const auto c_shape = shape<true>(c);
+        if constexpr (meta::is_maybe_v<result_t>
+            && meta::is_index_array_v<decltype(a_shape)>
+            && meta::is_index_array_v<decltype(c_shape)>
+        ) {
+            auto a_dim = (nm_size_t)len(a_shape);
+            auto c_dim = (nm_size_t)len(c_shape);
+            auto n_sum = (nm_size_t)sum_dim;
+            auto aligned = (n_sum <= a_dim) && (n_sum <= c_dim);
+            for (nm_size_t i=1; aligned && (i<=n_sum); i++) {
+                aligned = ((nm_size_t)at(a_shape,a_dim-i) == (nm_size_t)at(c_shape,c_dim-i));
+            }
+            return (aligned ? e : result_t{meta::Nothing});
+        } else {
+            return e;
+        }
+    } // tensordot_unchecked
+
+    template <typename lhs_t, typename rhs_t, typename axes_t=meta::ct<2>>
+    constexpr auto tensordot(const lhs_t& lhs, const rhs_t& rhs, const axes_t& axes=axes_t{})
+    {
+        using result_t = decltype(tensordot_unchecked(lhs,rhs,axes));
+        if constexpr (meta::is_maybe_v<result_t> && meta::is_index_v<axes_t>) {
+            // integer axes: the last n axes of lhs are paired with the first n axes of rhs;
+            // n beyond the number of dimensions of an operand (only known at run time): Nothing
+            auto n_axes = (nm_index_t)axes;
+            auto lhs_dim = (nm_index_t)dim<true>(lhs);
+            auto rhs_dim = (nm_index_t)dim<true>(rhs);
+            if ((n_axes < 0) || (n_axes > lhs_dim) || (n_axes > rhs_dim)) {
+                return result_t{meta::Nothing};
+            }
+        }
+        return tensordot_unchecked(lhs,rhs,axes);
     } // tensordot
 } // nmtools::view
 
